@@ -170,7 +170,9 @@ func getFields(t reflect.Type, tag ...string) []FieldAccessor {
 var structFieldMapCache sync.Map
 
 func getFieldMap(t reflect.Type, tag ...string) map[string]FieldAccessor {
-	if fieldMap, ok := structFieldMapCache.Load(t); ok {
+	// a registration that names its tags is never answered from the cache: the map cached for
+	// the type may have been built without them (as the field of a struct registered before)
+	if fieldMap, ok := structFieldMapCache.Load(t); ok && len(tag) == 0 {
 		return fieldMap.(map[string]FieldAccessor)
 	}
 	fields := getFields(t, tag...)
